@@ -602,11 +602,11 @@ def shards(tier, seed):
     big = tier == "thorough"
     out = []
     for fmt in DUMP_FORMATS:
-        out.append((f"dump_{fmt}", "shard_dump", {"fmt": fmt, "max_examples": 400 if big else 100}))
+        out.append((f"dump_{fmt}", "shard_dump", {"fmt": fmt, "max_examples": 2000 if big else 100}))
     for fmt in LOAD_FORMATS:
-        out.append((f"load_{fmt}", "shard_load", {"fmt": fmt, "max_examples": 400 if big else 80}))
-        out.append((f"load_{fmt}_b", "shard_load", {"fmt": fmt, "max_examples": 400 if big else 80}))
-    out.append(("load_fchk", "shard_fchk", {"max_examples": 300 if big else 60}))
+        out.append((f"load_{fmt}", "shard_load", {"fmt": fmt, "max_examples": 2000 if big else 80}))
+        out.append((f"load_{fmt}_b", "shard_load", {"fmt": fmt, "max_examples": 2000 if big else 80}))
+    out.append(("load_fchk", "shard_fchk", {"max_examples": 1500 if big else 60}))
     return out
 
 
